@@ -40,7 +40,7 @@ def cases(tier):
     n = 2 if tier == "quick" else 3
     out = [{"name": f"history/{n}calls", "kind": "history", "n": n}, {"name": "selection", "kind": "selection"},
            {"name": "refusal", "kind": "refusal"}, {"name": "element-masses", "kind": "masses"},
-           {"name": "real-typing-history", "kind": "realhist"}]
+           {"name": "real-typing-history", "kind": "realhist"}, {"name": "molgen-typing-sequences", "kind": "molgenhist"}]
     return out
 
 
@@ -202,6 +202,20 @@ def run_case(case, g, tier, res):
             return len(problems)
 
         explore_case(res, h, tier, on_path=on_path)
+    elif kind == "molgenhist":
+        def h(c):
+            first = c.fresh_int("first", 0, len(TYPABLE) - 1).__index__()
+            between = c.fresh_int("between", 0, len(BETWEEN) - 1).__index__()
+            problems = molgen_typing_sequence(g, ff, TYPABLE[first], BETWEEN[between])
+
+            def build(mv, c):
+                return (f"C20:molgen-typing:{problems[0][0] if problems else ''}", f"typing {TYPABLE[first]}, then {BETWEEN[between]}, then {TYPABLE[first]} again through MolGen.forcefield_types: {[p_[1] for p_ in problems[:3]]}",
+                        {"kind": "molgenhist", "first": TYPABLE[first], "between": BETWEEN[between]})
+
+            c.prove(len(problems) == 0, "typing generated molecules: total or dedicated error, element masses, history-free", build)
+            return len(problems)
+
+        explore_case(res, h, tier, on_path=on_path)
     else:
         def h(c):
             bad = element_mass_mismatches(ff)
@@ -213,6 +227,54 @@ def run_case(case, g, tier, res):
             return len(bad)
 
         explore_case(res, h, tier, on_path=on_path)
+
+
+# molecules (single-token, generated through the public API) the bundled rules type completely / cannot type completely
+TYPABLE = ["CCO", "CCCCO", "CC(=O)OC", "Cc1ccccc1"]
+BETWEEN = ["[2H]C([2H])([2H])O", "[13CH3]O", "C[N+](C)(C)C", "C[SiH3]", "OO", "O", "CCCC"]
+
+
+def molgen_typing_sequence(g, ff, first, between):
+    """type `first`, then `between` (isotope-labelled or untypable), then `first` again, all through MolGen.forcefield_types.
+    Every call either types every atom (hydrogens included) with its element's mass or raises the dedicated FfAssignmentError
+    carrying the partial assignment and the molecule; the second typing of `first` equals the first one by value."""
+    from rdkit import Chem
+
+    ff._global_nonbonded_itp_file = ff._global_smarts_rule_file = ff._global_assignment_class = None
+    pt = Chem.GetPeriodicTable()
+    problems = []
+
+    def type_once(smi, label):
+        mg = g.Molecule(smi).generate()
+        try:
+            params, mol = mg.forcefield_types
+        except ff.FfAssignmentError as e:
+            d = getattr(e, "incomplete_ff_dict", None)
+            m = getattr(e, "mol", None)
+            if not isinstance(d, dict) or m is None or len(d) >= m.GetNumAtoms():
+                problems.append(("error-without-partial-assignment", f"{label} {smi}: the assignment error does not carry a partial assignment and the molecule"))
+            return None
+        except Exception as e:  # any other exception type is not the dedicated error
+            problems.append(("other-exception", f"{label} {smi}: raised {type(e).__name__} instead of a complete assignment or FfAssignmentError"))
+            return None
+        if len(params) != mol.GetNumAtoms():
+            problems.append(("incomplete", f"{label} {smi}: {len(params)} of {mol.GetNumAtoms()} atoms typed"))
+        snap = []
+        for a in mol.GetAtoms():
+            p_ = params.get(a.GetIdx())
+            if p_ is None:
+                continue
+            if a.GetIsotope() == 0 and abs(p_.mass - pt.GetAtomicWeight(a.GetAtomicNum())) > 0.05:
+                problems.append(("element-mass", f"{label} {smi}: atom {a.GetIdx()} {a.GetSymbol()} has mass {p_.mass} ({p_.bond_type_name})"))
+            snap.append((a.GetIdx(), a.GetSymbol(), p_.bond_type_name, float(p_.mass), float(p_.charge), float(p_.sigma), float(p_.epsilon)))
+        return snap
+
+    s1 = type_once(first, "first typing of")
+    type_once(between, "typing of")
+    s2 = type_once(first, "second typing of")
+    if s1 is not None and s2 is not None and s1 != s2:
+        problems.append(("history", f"typing {first} again after {between} gives other parameters: {[x for x, y in zip(s1, s2) if x != y][:2]}"))
+    return problems
 
 
 REAL_PAIRS = [("CCO", "OCC"), ("CC(=O)OC", "COC(C)=O"), ("CCCCN", "NCCCC"), ("c1ccccc1C", "Cc1ccccc1")]
@@ -390,6 +452,11 @@ def replay(rp, gb):
             refused = True
         want = len(tok.bond_descriptors) > 0
         return refused != want, f"refused={refused} open={len(tok.bond_descriptors)}"
+    if rp["kind"] == "molgenhist":
+        import gbigsmiles.forcefield_helper as ffp
+
+        problems = molgen_typing_sequence(gb, ffp, rp["first"], rp["between"])
+        return bool(problems), f"{[p_[1] for p_ in problems[:4]]}"
     if rp["kind"] == "realhist":
         problems = real_typing_history(ff, tuple(rp["pair"]), rp["first"])
         return bool(problems), str(problems[:4])
